@@ -18,8 +18,8 @@ import (
 )
 
 func init() {
-	register("C01", "other", LoadOpts{TC: true, SSA: true}, checkC01)
-	register("C15", "other", LoadOpts{TC: true, SSA: true, Gen: true}, checkC15)
+	register("C01", "other", LoadOpts{TC: true, SSA: true, Controls: []string{"overlap"}}, checkC01)
+	register("C15", "other", LoadOpts{TC: true, SSA: true, Gen: true, Controls: []string{"cells"}}, checkC15)
 }
 
 type fieldImpl struct {
@@ -708,6 +708,9 @@ func checkC01(c *Ctx) {
 	laOrder(c, "LA-order")
 	laAlias(c, "LA-alias")
 	laMemRead(c, "LA-memread")
+	laOverlap(c, "LA-overlap")
+	laRunKind(c)
+	laLEB(c)
 	checkTypeFuncs(c)
 	r.assume("per-shape inversion of shredding by assembly is claimed under C05 (TV-asm/TV-shred), not here")
 }
@@ -843,6 +846,8 @@ func checkC15(c *Ctx) {
 	} else {
 		r.bad("LA-types", "optional <-> pointer", u.Pos(fld.Pos()), "structs.field does not emit a pointer exactly for OPTIONAL schema elements")
 	}
+	// the footer schema parquetgen -parquet reads: group child counts are per group
+	laCells(c, "LA-cells")
 	r.floor("LA-types/table-entries", 6, "BOOLEAN, INT32, INT64, FLOAT, DOUBLE, BYTE_ARRAY")
 	r.assume("tree reconstruction from num_children (structs.getStruct) is NOT decided")
 }
